@@ -340,7 +340,7 @@ func (c *compiler) evalUpdateIndex(left, index, value interface{}) error {
 		if index == nil {
 			return fmt.Errorf("cannot use nil as map index")
 		}
-		if it := reflect.TypeOf(index); !it.AssignableTo(mt.Key()) || !it.Comparable() {
+		if it := reflect.TypeOf(index); !it.AssignableTo(mt.Key()) || !reflect.ValueOf(index).Comparable() {
 			return fmt.Errorf("cannot use %v (%s) as %s value in map index", index, it, mt.Key())
 		}
 		if value != nil && !reflect.TypeOf(value).AssignableTo(mt.Elem()) {
@@ -402,7 +402,7 @@ func (c *compiler) evalAccessIndex(left, index interface{}, node *ast.IndexExpre
 			return nil, err
 		}
 
-		if it := reflect.TypeOf(index); !it.AssignableTo(reflect.TypeOf(left).Key()) || !it.Comparable() {
+		if it := reflect.TypeOf(index); !it.AssignableTo(reflect.TypeOf(left).Key()) || !reflect.ValueOf(index).Comparable() {
 			return nil, fmt.Errorf("cannot use %v (%s) as %s value in map index", index, it, reflect.TypeOf(left).Key())
 		}
 
